@@ -17,8 +17,9 @@ RULE = ('generated dense KS/phy source directories (tens of spikes, 3-8 channels
         'files, (n,) vs (n,1) vectors, id/time/channel-map dtypes, ids up to 300, params.py present/absent; labels '
         '{"", probe00, imec1} plus 32 labels that collide with the written names (every ALF attribute and object name: '
         'templates, clusters, amps, times, ...; npy, csv; prefixes/suffixes and dotted combinations: temp, plates, '
-        'spikes.times, times.npy, x.amps, ...); unit factors {1, 2.5}; targets: a fresh directory under six spellings '
-        '(new, existing empty, through a symlink, <src>/../out, another directory with the same last component, relative) '
+        'spikes.times, times.npy, x.amps, ...); unit factors {1, 2.5}; targets: a fresh directory under seven spellings '
+        '(new, existing empty, through a symlink, <src>/../out, another directory with the same last component, relative, '
+        'the source path in another letter case) '
         'or the source directory under 14 spellings (same path, Path object, /., trailing /, other/../src, <src>/sub/.. '
         'with and without the sub-directory, symlink, chain of symlinks, symlinked parent, <src>/self -> ., relative, '
         'relative ../src, relative .). Corpus first, then every pair of values of the main axes, '
@@ -51,7 +52,7 @@ TIMEOUT = {'quick': 60, 'thorough': 120}
 # spellings of the source directory as target (all must be refused) and of a fresh target (none may be refused)
 SAME = ['same', 'same_pathobj', 'same_dot', 'same_slash', 'same_dotdot', 'same_sub_dotdot', 'same_sub_missing',
         'same_symlink', 'same_link_chain', 'same_parent_link', 'same_inner_link', 'same_rel', 'same_rel_dotdot', 'same_rel_dot']
-FRESH_ALT = ['fresh_empty', 'fresh_symlink', 'fresh_dotdot', 'fresh_samename', 'fresh_rel']
+FRESH_ALT = ['fresh_empty', 'fresh_symlink', 'fresh_dotdot', 'fresh_samename', 'fresh_rel', 'fresh_case']
 # labels that collide with what the written names are made of: attribute names, object names, extensions, and
 # prefixes / suffixes / dotted combinations of them ("inserted into EVERY file" must hold for these too)
 LABELS_ATTR = ['templates', 'clusters', 'amps', 'times', 'samples', 'depths', 'channels', 'spikes', 'waveforms',
@@ -75,7 +76,7 @@ CORPUS = [
     dict(curated='ops', other_template_empty='middle', n_templates=3, last_template_empty=True, label='probe00'),
     dict(curated='ops', big_ids=True, n_samples_wf=2, n_channels=3, n_spikes=9, raw=False, cluster_probes=False, cluster_shanks=False),
     dict(n_channels=13, raw=False, curated='no'), dict(n_channels=14, raw=True, curated='ops', label='probe00'),
-    dict(n_channels=12, raw=False),
+    dict(n_channels=12, raw=False), dict(spike_attr=True, raw=True, label='probe00'), dict(spike_attr=True, vec2d=True, raw=False),
     dict(probes='two', cm_dtype='uint32', label='probe00'), dict(probes='three', cm_dtype='int32'),
     dict(probes='const1', cm_dtype='uint32'), dict(probes='two', vec2d=True, cm_dtype='int64', raw=True),
     dict(vec2d=True, cluster_probes=True, cluster_shanks=True, labels=True, drift=True, label='probe00'),
@@ -94,7 +95,7 @@ CORPUS = [
     dict(target='same_rel_dot', label='probe00'),
     # ... and targets that only look like the source directory must NOT be refused
     dict(target='fresh_empty'), dict(target='fresh_symlink', label='probe00'), dict(target='fresh_dotdot', raw=True),
-    dict(target='fresh_samename', label='probe00'), dict(target='fresh_rel', params_py=False),
+    dict(target='fresh_samename', label='probe00'), dict(target='fresh_rel', params_py=False), dict(target='fresh_case'),
 ]
 # seeded change C13-m3 (files whose stem already ends with .<label> skipped): every colliding label once, on small
 # directories, in the quick tier as well
@@ -190,6 +191,8 @@ def _place_target(t, d, src):
     if t == 'fresh_rel':
         os.chdir(d)
         return 'out', out
+    if t == 'fresh_case':                      # differs from the source directory in letter case only
+        return os.path.join(d, 'SRC'), os.path.join(d, 'SRC')
     if t == 'same':
         return src, src
     if t == 'same_pathobj':
@@ -282,10 +285,16 @@ def run_case(case):
         obs['deleted'] = sorted(k for k in hashes0 if k not in hashes1)
         obs['new_names'] = sorted(k for k in hashes1 if k not in hashes0)
         shas = set(other0.values())
+        nothing_touched = hashes1 == hashes0 and sorted(os.listdir(d)) == top0
         if outcome == 'refused':
-            obs['untouched'] = hashes1 == hashes0 and sorted(os.listdir(d)) == top0
+            obs['untouched'] = nothing_touched
+        elif not fresh and outcome == 'crash' and nothing_touched:
+            # the source directory was the target and convert() raised without having touched anything: a refusal,
+            # whatever the exception class / message (the statement does not fix them)
+            obs['outcome'], obs['untouched'] = 'refused', True
         elif not fresh:
-            # the source directory was named as the target and convert() did not refuse: no output directory to look at
+            # the source directory was named as the target and convert() went on (it completed, or raised after
+            # having written): no separate output directory to look at
             obs['outcome'], obs['info'] = 'notrefused', (info or 'convert() returned')
         out_npy, out_other = {}, {}
         if obs['outcome'] == 'converted':
@@ -404,7 +413,7 @@ def size(case):
     return sum(len(f['data']) for f in ds['files'].values()) + 50 * len(ds['files']) + (200 if ds.get('raw') else 0)
 
 
-OPTIONAL = ['channel_shanks.npy', 'channel_probe.npy', 'similar_templates.npy', 'whitening_mat.npy', 'channel_labels.npy',
+OPTIONAL = ['spike_quality.npy', 'channel_shanks.npy', 'channel_probe.npy', 'similar_templates.npy', 'whitening_mat.npy', 'channel_labels.npy',
             'cluster_probes.npy', 'cluster_shanks.npy', 'drift.times.npy', 'drift.um.npy', 'drift_depths.um.npy',
             '_phy_spikes_subset.spikes.npy', '_phy_spikes_subset.channels.npy', '_phy_spikes_subset.waveforms.npy']
 GROUPS = [['pc_features.npy', 'pc_feature_ind.npy', 'pc_feature_spike_ids.npy'],
